@@ -1,6 +1,7 @@
 package main
 
 import (
+	"errors"
 	"fmt"
 	"sync"
 
@@ -212,6 +213,54 @@ func fnConcurrentOracle(m *fnRun) {
 					m.s.finding(Finding{Prop: "C18", What: "a handler over the underlying string type was accepted for a declared typed enum", Detail: []string{what}})
 				}
 			}()
+		}
+	}
+
+	// dynamic functions whose TYPE HANDLER derives the output type from concrete input types and
+	// declines anything else (an error, or a nil type): Call invokes the handler and returns what it
+	// returned - how the output type would be computed is no business of Call.
+	type dynCase struct {
+		name string
+		th   func(in []schema.Type) (schema.Type, error)
+	}
+	firstOf := func(arg any) (any, error) {
+		l, _ := arg.([]any)
+		if len(l) == 0 {
+			return nil, fmt.Errorf("the list is empty")
+		}
+		return l[0], nil
+	}
+	for _, dc := range []dynCase{
+		{"type handler returns an error unless the input is a list", func(in []schema.Type) (schema.Type, error) {
+			if len(in) == 1 && in[0].TypeID() == schema.TypeIDList {
+				return in[0].(interface{ Items() schema.Type }).Items(), nil
+			}
+			return nil, fmt.Errorf("first() needs a list")
+		}},
+		{"type handler returns a nil type unless the input is a list", func(in []schema.Type) (schema.Type, error) {
+			if len(in) == 1 && in[0].TypeID() == schema.TypeIDList {
+				return str, nil
+			}
+			return nil, nil
+		}},
+		{"type handler accepts anything", func(in []schema.Type) (schema.Type, error) { return str, nil }},
+	} {
+		f, err := schema.NewDynamicCallableFunction("first", []schema.Type{schema.NewAnySchema()}, nil, firstOf, dc.th)
+		m.s.stats["oracle:dynamic-type-handlers"]++
+		if err != nil {
+			m.s.finding(Finding{Prop: "C18", What: "constructor rejected a matching dynamic handler (" + dc.name + "): " + err.Error()})
+			continue
+		}
+		got, err := f.Call([]any{[]any{"a", "b"}})
+		if err != nil || got != "a" {
+			m.s.finding(Finding{Prop: "C18", What: "dynamic function: Call does not return what the handler returned (" + dc.name + ")",
+				Detail: []string{fmt.Sprintf("handler returned (\"a\", nil), Call returned (%v, %v)", got, err)}})
+		}
+		_, err = f.Call([]any{[]any{}})
+		var fce *schema.FunctionCallError
+		if err == nil || !errors.As(err, &fce) || !fce.IsFunctionReportedError {
+			m.s.finding(Finding{Prop: "C18", What: "dynamic function: the handler's own error is not reported as function-reported (" + dc.name + ")",
+				Detail: []string{fmt.Sprint(err)}})
 		}
 	}
 }
